@@ -12,6 +12,7 @@
 #include <unifex/spawn_detached.hpp>
 #include <unifex/spawn_future.hpp>
 #include <unifex/then.hpp>
+#include <unifex/v0/async_scope.hpp>
 #include <unifex/v2/async_scope.hpp>
 
 #include <optional>
@@ -36,6 +37,8 @@ struct SItem {
   uint64_t issue_begin = 0, issue_end = 0;
   bool future_dropped = false;
   uint64_t drop_seq = 0;
+  int fault = 0;       // 0 none, 1 allocation failures while the item is issued, 2 the nested sender's connect() throws
+  bool threw = false;  // issuing the item ended with an exception: the item never existed
 };
 
 struct World {
@@ -79,6 +82,8 @@ void worker(World* w, Scope* scope, int me) {
     Gate* g = &w->gates[i];
     yields(it.pre);
     { usim::np_scope np; it.issue_begin = seq(); }
+    if (it.fault == 1) usim_alloc_fault_window(1);
+    try {
     switch (it.kind) {
       case I_NEST_START: case I_ATTACH_START: {
         auto ns = unifex::nest(gate_sender{g}, *scope);
@@ -135,6 +140,16 @@ void worker(World* w, Scope* scope, int me) {
         break;
       }
     }
+    } catch (const gate_error&) {
+      usim::np_scope np;
+      it.threw = true;
+      usim_probe("issuing an item threw (connect)");
+    } catch (const std::bad_alloc&) {
+      usim::np_scope np;
+      it.threw = true;
+      usim_probe("issuing an item threw (bad_alloc)");
+    }
+    if (it.fault == 1) usim_alloc_fault_window(0);
   }
 }
 
@@ -146,6 +161,8 @@ void body_scope(const char* name) {
   w->nitems = draw_range(1, kMaxItems);
   w->nworkers = draw_range(1, kMaxWorkers);
   w->njoin = draw_range(1, kMaxJoin);
+  const bool faults = usim_param_int("faults", 0) != 0;
+  bool any_alloc_fault = false;
   for (int i = 0; i < w->nitems; ++i) {
     SItem& it = w->items[i];
     int k = draw(v1 ? 8 : 7);
@@ -165,7 +182,14 @@ void body_scope(const char* name) {
     g.payload = 500 + i;
     g.mode = draw(3) == 0 ? 0 : 1;
     g.on_stop = draw(4) == 0 ? 0 : 1;
+    if (faults) {
+      int f = draw(7);
+      it.fault = f == 0 ? 1 : f == 1 ? 2 : 0;
+      if (it.fault == 2) g.throw_on_connect = true;
+      if (it.fault == 1) any_alloc_fault = true;
+    }
   }
+  if (any_alloc_fault) usim_fault_rate(USIM_F_ALLOC, 350);
   for (int j = 0; j < w->njoin; ++j) {
     w->join[j].what = "join";
     w->join[j].a = j;
@@ -252,6 +276,13 @@ void body_scope(const char* name) {
       SItem& it = w->items[i];
       Gate& g = w->gates[i];
       bool has_rec = it.kind == I_NEST_START || it.kind == I_ATTACH_START || it.kind == I_FUTURE_AWAIT || it.kind == I_FUTURE_CANCEL;
+      if (it.threw) {
+        // the exception left the scope as if the item had never been issued (the joins above did complete; leaks are the arena's business)
+        KIT_CHECK(!g.started, "c09.throw-started", "issuing work %d (%s) threw, yet its operation was started", i, kItemName[it.kind]);
+        KIT_CHECK(!g.connected || g.destroyed, "c02.leak-object", "issuing work %d (%s) threw after connecting the operation, which was never destroyed", i, kItemName[it.kind]);
+        KIT_CHECK(it.rec.completions == 0, "c09.throw-started", "issuing work %d (%s) threw, yet its receiver was completed", i, kItemName[it.kind]);
+        continue;
+      }
       if (g.started) {
         KIT_CHECK(g.claimed, "c08.join-early", "nested work %d was started but never completed", i);
         KIT_CHECK(g.start_seq < w->first_join_done, "c08.started-after-close", "nested work %d (%s) was started after a join had already completed", i, kItemName[it.kind]);
@@ -346,12 +377,155 @@ void body_scope(const char* name) {
   { usim::np_scope np; delete w; }
 }
 
+
+// ---- v0::async_scope: spawn() of void senders, complete()/cleanup()/request_stop()
+void body_v0(void*) {
+  World* w;
+  { usim::np_scope np; w = new World(); }
+  using Scope = unifex::v0::async_scope;
+  w->nitems = draw_range(1, kMaxItems);
+  w->nworkers = draw_range(1, kMaxWorkers);
+  w->njoin = draw_range(1, kMaxJoin);
+  const bool faults = usim_param_int("faults", 0) != 0;
+  bool any_alloc_fault = false;
+  for (int i = 0; i < w->nitems; ++i) {
+    SItem& it = w->items[i];
+    it.kind = I_DETACHED;
+    it.worker = draw(w->nworkers);
+    it.pre = draw_small(8);
+    it.mid = draw_small(6);
+    Gate& g = w->gates[i];
+    g.id = i;
+    g.outcome = draw(5) == 0 ? CH_DONE : CH_VALUE;  // (an error terminates the process by design)
+    g.payload = 500 + i;
+    g.mode = draw(3) == 0 ? 0 : 1;
+    g.on_stop = draw(4) == 0 ? 0 : 1;
+    if (faults) {
+      int f = draw(7);
+      it.fault = f == 0 ? 1 : f == 1 ? 2 : 0;
+      if (it.fault == 2) g.throw_on_connect = true;
+      if (it.fault == 1) any_alloc_fault = true;
+    }
+  }
+  if (any_alloc_fault) usim_fault_rate(USIM_F_ALLOC, 350);
+  for (int j = 0; j < w->njoin; ++j) {
+    w->join[j].what = "join";
+    w->join[j].a = j;
+    w->join[j].oracle_double = "c08.join-double";
+    w->join[j].hook = &join_hook;
+    w->join[j].hook_arg = w;
+    w->join_pre[j] = draw_small(40);
+    w->join_kind[j] = draw(2);  // 0 complete, 1 cleanup
+  }
+  if (draw(3) == 0) w->stop_call_pre = draw_small(40);
+  w->opener_delay = draw_small(8);
+  if (draw(3) == 0) usim_fault_rate(USIM_F_CAS_WEAK, 100);
+  usim_sample("async_scope v0: workers=%d joins=%d items=%d stopper=%d", w->nworkers, w->njoin, w->nitems, w->stop_call_pre >= 0);
+  arena_box<Scope> scope;
+  scope.construct();
+  std::thread thr[kMaxWorkers + kMaxJoin + 2];
+  int nt = 0;
+  for (int m = 0; m < w->nworkers; ++m)
+    thr[nt++] = std::thread([w, m, &scope] {
+      for (int i = 0; i < w->nitems; ++i) {
+        SItem& it = w->items[i];
+        if (it.worker != m) continue;
+        yields(it.pre);
+        { usim::np_scope np; it.issue_begin = seq(); }
+        if (it.fault == 1) usim_alloc_fault_window(1);
+        try {
+          scope->spawn(unifex::then(gate_sender{&w->gates[i]}, [](long) noexcept {}));
+        } catch (const gate_error&) {
+          usim::np_scope np; it.threw = true; usim_probe("issuing an item threw (connect)");
+        } catch (const std::bad_alloc&) {
+          usim::np_scope np; it.threw = true; usim_probe("issuing an item threw (bad_alloc)");
+        }
+        if (it.fault == 1) usim_alloc_fault_window(0);
+        { usim::np_scope np; it.issue_end = seq(); }
+      }
+    });
+  using S = unifex::inline_scheduler;
+  for (int j = 0; j < w->njoin; ++j)
+    thr[nt++] = std::thread([w, j, &scope] {
+      yields(w->join_pre[j]);
+      if (w->join_kind[j] == 0) {
+        auto snd = scope->complete();
+        started_op<S, decltype(snd)> op;
+        op.start(&w->join[j], S{}, std::move(snd));
+        w->join[j].wait();
+        op.destroy();
+      } else {
+        auto snd = scope->cleanup();
+        started_op<S, decltype(snd)> op;
+        op.start(&w->join[j], S{}, std::move(snd));
+        w->join[j].wait();
+        op.destroy();
+      }
+    });
+  if (w->stop_call_pre >= 0)
+    thr[nt++] = std::thread([w, &scope] {
+      yields(w->stop_call_pre);
+      { usim::np_scope np; w->stop_call_begin = seq(); }
+      scope->request_stop();
+      { usim::np_scope np; w->stop_call_end = seq(); }
+    });
+  gate_opener opener{w->gates, w->nitems, &w->all_done, w->opener_delay};
+  std::thread opener_thr([&opener] { opener.run(); });
+  for (int i = 0; i < nt; ++i) thr[i].join();
+  w->all_done = 1;
+  opener_thr.join();
+  {
+    usim::np_scope np;
+    uint64_t first_close = 0;
+    for (int j = 0; j < w->njoin; ++j) {
+      KIT_CHECK(w->join[j].completions == 1, "c08.join-lost", "join %d never completed although all spawned work finished", j);
+      if (!first_close || w->join[j].start_end < first_close) first_close = w->join[j].start_end;
+    }
+    if (w->stop_call_end && (!first_close || w->stop_call_end < first_close)) first_close = w->stop_call_end;
+    uint64_t stop_by = w->stop_call_end;
+    bool pending = w->stop_call_begin && !w->stop_call_end;
+    for (int j = 0; j < w->njoin; ++j)
+      if (w->join_kind[j] == 1) {
+        if (!w->join[j].start_end) pending = true;
+        else if (w->join[j].start_end > stop_by) stop_by = w->join[j].start_end;
+      }
+    if (pending) stop_by = 0;
+    for (int i = 0; i < w->nitems; ++i) {
+      SItem& it = w->items[i];
+      Gate& g = w->gates[i];
+      if (it.threw) {
+        KIT_CHECK(!g.started, "c09.throw-started", "spawn of work %d threw, yet its operation was started", i);
+        KIT_CHECK(!g.connected || g.destroyed, "c02.leak-object", "spawn of work %d threw after connecting the operation, which was never destroyed", i);
+        continue;
+      }
+      if (g.started) {
+        KIT_CHECK(g.claimed, "c08.join-early", "spawned work %d was started but never completed", i);
+        KIT_CHECK(g.start_seq < w->first_join_done, "c08.started-after-close", "spawned work %d was started after a join had already completed", i);
+        KIT_CHECK(g.destroyed, "c02.leak-object", "operation of spawned work %d was never destroyed", i);
+        usim_probe("nested work admitted and run");
+      } else {
+        KIT_CHECK(!g.connected || g.destroyed, "c02.leak-object", "operation of refused work %d was never destroyed", i);
+      }
+      if (first_close && it.issue_begin > first_close) {
+        KIT_CHECK(!g.started, "c08.started-after-close", "work %d was spawned after the scope had been closed, yet it was started", i);
+        usim_probe("work refused after close");
+      }
+      if (stop_by && g.started && g.claimed && g.complete_begin > stop_by && g.stop_possible) {
+        KIT_CHECK(g.stop_at_completion, "c08.cleanup-no-stop", "work %d completed after cleanup()/request_stop() returned without having seen a stop request", i);
+        usim_probe("cleanup stopped outstanding work");
+      }
+    }
+  }
+  scope.destroy();
+  { usim::np_scope np; delete w; }
+}
+
 void body_v2(void*) { body_scope<unifex::v2::async_scope>("async_scope v2"); }
 void body_v1(void*) { body_scope<unifex::v1::async_scope>("async_scope v1"); }
 
 }  // namespace
 
 int main(int argc, char** argv) {
-  static const usim_workload table[] = {{"scope_v2", body_v2}, {"scope_v1", body_v1}};
-  return usim_main(argc, argv, table, 2);
+  static const usim_workload table[] = {{"scope_v2", body_v2}, {"scope_v1", body_v1}, {"scope_v0", body_v0}};
+  return usim_main(argc, argv, table, 3);
 }
